@@ -21,6 +21,8 @@ func objRef(pkg, n string) *Field {
 	return &Field{Kind: "objref", Ref: &Ref{Pkg: pkg, Name: n}}
 }
 func prop(n string, f *Field) *Property { return &Property{Name: n, F: f} }
+
+func (f *File) withImports(is ...*Import) *File { f.Imports = append(f.Imports, is...); return f }
 func object(n string, ps ...*Property) *Element {
 	return &Element{Kind: "object", N: &Nested{Kind: "object", Name: n, Props: ps}}
 }
@@ -59,6 +61,30 @@ func Corpus() []CorpusCase {
 			Req:   []*Tmsg{{Fields: []*Property{prop("fooId", key("id62"))}}},
 			Reply: []*Tmsg{{Fields: []*Property{prop("name", str("string"))}}}}},
 		&Element{Kind: "topic", Topic: &Topic{Kind: "upsert", Name: "Qux", Msgs: []*Tmsg{{Name: sp("UpsertFoo"), Fields: []*Property{prop("fooId", key("id62"))}}}}}))
+	// seeded C02-G class, deterministic: a path parameter in the service's basePath and methods whose own httpPath has none
+	// (":fooId" of the base path must become "{foo_id}" in every method's rule)
+	add("basepath-parameter-only", "foo.v1", file(foo, "a",
+		&Element{Kind: "service", Service: &Service{Name: "Foo", Base: sp("/foo/v1/:fooId"), Methods: []*Method{
+			{Name: "Summary", Verb: "GET", Path: "/summary", Request: []*Property{prop("fooId", str("string"))},
+				HasResp: true, Response: []*Property{prop("name", str("string"))}},
+			{Name: "Archive", Verb: "POST", Path: "archive", Request: []*Property{prop("fooId", key("id62")), prop("why", str("string"))}},
+			{Name: "Part", Verb: "GET", Path: "/part/:partId", Request: []*Property{prop("fooId", str("string")), prop("partId", str("string"))},
+				HasResp: true, Response: []*Property{prop("name", str("string"))}}}}}))
+	// seeded C02-H class, deterministic: the same imported (package-qualified) type referred to from the main file, the
+	// .service file and the .topic file of ONE source (each output file needs the import of its own), in both orders
+	for k, order := range [][]int{{0, 1, 2}, {2, 1, 0}, {1, 0, 2}} {
+		money := file([]string{"money", "v1"}, "types", object("Amount", prop("units", str("string"))))
+		els := []*Element{
+			object("Invoice", prop("total", objRef("money", "Amount"))),
+			{Kind: "service", Service: &Service{Name: "Pay", Base: sp("/pay/v1"), Methods: []*Method{{
+				Name: "Charge", Verb: "POST", Path: "/charge", Request: []*Property{prop("amount", objRef("money", "Amount"))},
+				HasResp: true, Response: []*Property{prop("charged", objRef("money.v1", "Amount"))}}}}},
+			{Kind: "topic", Topic: &Topic{Kind: "publish", Name: "Paid", Msgs: []*Tmsg{{Name: sp("Paid"), Fields: []*Property{prop("amount", objRef("money", "Amount"))}}}}},
+		}
+		user := &File{Dir: []string{"shop", "v1"}, Base: "a", Imports: []*Import{{Path: "money.v1"}},
+			Elements: []*Element{els[order[0]], els[order[1]], els[order[2]]}}
+		add(fmt.Sprintf("imported-type-in-three-output-files-%d", k), "shop.v1", money, user)
+	}
 	// defect: inline type named like its enclosing message (link error)
 	add("inline-named-like-parent", "foo.v1", file(foo, "a",
 		object("Foo", prop("foo", obj(prop("y", str("string")))))))
@@ -183,6 +209,23 @@ func Corpus() []CorpusCase {
 	add("outside-dup-enum-value-inline-siblings", "foo.v1", file(foo, "a",
 		object("Foo", prop("a", inlineEnum("", "X_", "ONE")), prop("b", inlineEnum("", "X_", "ONE")))))
 	add("outside-dup-enum-value-vs-type", "foo.v1", file(foo, "a", enumEl("A", "F", "OO"), object("FOO")))
+	// list methods (fix cec4e3a): a request holding a j5.list.v1.QueryRequest needs a response with exactly one array, of objects
+	listSvc := func(hasResp bool, resp ...*Property) *Element {
+		return &Element{Kind: "service", Service: &Service{Name: "Things", Base: sp("/things/v1"), Methods: []*Method{{
+			Name: "ListThings", Verb: "GET", Path: "/list", Request: []*Property{prop("page", objRef("j5.list.v1", "PageRequest")), prop("query", objRef("j5.list.v1", "QueryRequest"))},
+			HasResp: hasResp, Response: resp}}}}
+	}
+	strs := func(n string) *Property { return prop(n, &Field{Kind: "array", Item: str("string")}) }
+	things := func(n string) *Property { return prop(n, &Field{Kind: "array", Item: obj(prop("name", str("string")))}) }
+	add("list-method", "foo.v1", file(foo, "a", listSvc(true, things("things"), prop("page", objRef("j5.list.v1", "PageResponse"))),
+		&Element{Kind: "service", Service: &Service{Name: "ByAlias", Methods: []*Method{{Name: "ListRefs", Verb: "POST", Path: "/refs",
+			Request: []*Property{prop("q", objRef("list", "QueryRequest"))}, HasResp: true,
+			Response: []*Property{prop("refs", &Field{Kind: "array", Item: objRef("", "Thing")}), prop("tags", &Field{Kind: "map", Item: str("string")})}}}}},
+		object("Thing", prop("name", str("string")))).withImports(&Import{Path: "j5.list.v1"}))
+	add("outside-list-method-no-response", "foo.v1", file(foo, "a", listSvc(false)))
+	add("outside-list-method-no-array", "foo.v1", file(foo, "a", listSvc(true, prop("name", str("string")))))
+	add("outside-list-method-two-arrays", "foo.v1", file(foo, "a", listSvc(true, things("things"), strs("names"))))
+	add("outside-list-method-scalar-array", "foo.v1", file(foo, "a", listSvc(true, strs("names"))))
 	add("outside-subpackage-vs-package", "foo.v1",
 		file(foo, "a", svc("A", "Get")),
 		&File{Dir: []string{"foo", "v1", "service"}, Base: "b", Elements: []*Element{object("GetRequest", prop("x", str("string")))}})
@@ -247,7 +290,19 @@ func EditCorpus() []EditPair {
 		}
 		return &Bundle{Files: []*File{file(foo, "a", &Element{Kind: "topic", Topic: t})}}
 	}
+	// seeded C13-H class, deterministic: a field with an inline enum (named after the field: Order.Status), then a
+	// top-level enum of that bare name appended to the file - the existing field must keep the nested type
+	order := func(extra ...*Element) *Bundle {
+		els := []*Element{object("Order", prop("status", &Field{Kind: "enuminline", Enum: &Enum{Opts: []string{"OPEN", "PAID"}}}),
+			prop("lines", &Field{Kind: "array", Item: obj(prop("kind", &Field{Kind: "enuminline", Enum: &Enum{Opts: []string{"A", "B"}}}))}))}
+		return &Bundle{Files: []*File{file(foo, "a", append(els, extra...)...)}}
+	}
+	statusEl := &Element{Kind: "enum", N: &Nested{Kind: "enum", Name: "Status", Enum: &Enum{Name: "Status", Opts: []string{"X", "Y"}}}}
+	kindEl := &Element{Kind: "enum", N: &Nested{Kind: "enum", Name: "Kind", Enum: &Enum{Name: "Kind", Opts: []string{"P", "Q"}}}}
 	return []EditPair{
+		{order(), order(statusEl, kindEl), "foo.v1", []EditRec{
+			{"decl", "foo/v1/a.j5s", "enum Status (bare name of an inline enum)", "EAppendDecl 0 " + statusEl.Coq(), ""},
+			{"decl", "foo/v1/a.j5s", "enum Kind (bare name of a deep inline enum)", "EAppendDecl 0 " + kindEl.Coq(), ""}}, false},
 		{mk(), plain, "foo.v1", []EditRec{{"field", "foo/v1/a.j5s:Foo", "age scalar", "EAppendField 0 0 " + age.Coq(), ""},
 			{"option", "foo/v1/a.j5s:Status", "INACTIVE", "EAppendOption 0 1 " + S("INACTIVE"), ""}}, false},
 		// defect: the appended inline type Foo.Foo captures the relative name Foo.X of the existing field
